@@ -35,7 +35,7 @@ const uint8_t PROFILES[][NOPS] = {
     /* C03 grow         */ {3, 1, 1, 8, 3, 3, 2, 1, 1, 0, 0, 0, 0, 1},
     /* C03 churn        */ {4, 1, 1, 5, 3, 3, 5, 2, 1, 0, 0, 0, 0, 1},
     /* C03 resize-heavy */ {8, 1, 2, 5, 2, 2, 3, 1, 2, 0, 0, 0, 0, 1},
-    /* C04 enumerate    */ {5, 1, 1, 8, 1, 1, 2, 0, 0, 2, 2, 4, 2, 0},
+    /* C04 enumerate    */ {5, 1, 1, 8, 1, 1, 2, 0, 1, 2, 2, 4, 2, 0},
     /* C19              */ {6, 1, 1, 7, 4, 2, 3, 1, 0, 1, 0, 0, 0, 0},
     /* C16              */ {8, 1, 4, 6, 2, 1, 2, 0, 0, 0, 0, 1, 1, 1},
     /* big tables       */ {2, 0, 0, 30, 6, 1, 6, 1, 0, 0, 0, 0, 0, 0},
@@ -221,6 +221,9 @@ struct EachCtx {
     size_t limit;
     bool overflow, foreign;
     int erase_mask;         // FOREACH_ERASE: erase+free the visited element when its id bit pattern matches
+    bool lookups = false;   // the visitor looks other elements up in the same table (only while no rehash is pending: a lookup
+                            // during a pending rehash relocates buckets, which no enumeration is promised to survive)
+    bool lookup_failed = false;
 };
 int each_visit(void *e, void *p)
 {
@@ -228,6 +231,12 @@ int each_visit(void *e, void *p)
     if (c->seen.size() >= c->limit) { c->overflow = true; return 99; }
     if (!live_in(*c->t, e)) { c->foreign = true; return 98; }
     c->seen.push_back((Elem *)e);
+    if (c->lookups && !c->t->model.empty()) {
+        auto it = c->t->model.begin();
+        std::advance(it, (c->seen.size() * 7) % c->t->model.size());
+        void *r = cstl_hash_find(&c->t->h, it->first, nullptr, nullptr);       // library call from within the visitor
+        if (!r || !live_in(*c->t, r)) c->lookup_failed = true;
+    }
     if (c->stop_at && c->seen.size() == c->stop_at) return c->stop_val;
     return 0;
 }
@@ -646,6 +655,8 @@ bool apply(int op, uint8_t a, uint8_t b, uint8_t c, int ntab, size_t K, size_t m
         size_t stop = (c & 1) ? (t.n ? 1 + (c >> 1) % t.n : 0) : 0;
         int v = (c & 2) ? -3 : 41 + b;
         EachCtx ec{&t, {}, stop, v, t.n + 1, false, false, 0};
+        ec.lookups = !cx.c19 && !cx.c17 && (b & 0x20) && t.n <= 300 && (op == FOREACH || !peek_pending(t));
+        if (ec.lookups) CNT("class.enum.visitor_looks_up");
         int rv;
         bool grow_reloc = peek_relocated_beyond(t), pend = peek_pending(t);
         bool shrinkp = pend && t.h.bucket.rh.count < t.h.bucket.count;
@@ -654,6 +665,7 @@ bool apply(int op, uint8_t a, uint8_t b, uint8_t c, int ntab, size_t K, size_t m
         TRACE("%s %s stop@%zu -> %d, %zu visits%s", t.tag, OPN[op], stop, rv, ec.seen.size(), pend ? " (rehash pending)" : "");
         if (op == FOREACH_CONST) { if (grow_reloc) { cx.enum_grow_relocated = true; CNT("class.enum.grow_relocated"); } if (shrinkp) { cx.enum_shrink = true; CNT("class.enum.shrink_pending"); } }
         CHECK(!ec.foreign, "C04.visit.live", "%s %s visited an object that is not a live element", t.tag, OPN[op]);
+        CHECK(!ec.lookup_failed, "C03.find.iff", "%s a lookup of a live key from inside a %s visitor found nothing", t.tag, OPN[op]);
         CHECK(!ec.overflow, "C04.visit.once", "%s %s made more than %zu visits", t.tag, OPN[op], t.n);
         {
             std::vector<Elem *> s2 = ec.seen;
